@@ -7,6 +7,7 @@ import Driver.C04
 import Driver.C09
 import Driver.C10
 import Driver.C11
+import Driver.C12
 import Driver.C16
 import Driver.C17
 open Lean
@@ -21,6 +22,7 @@ def dispatch (p op : String) (c i : Json) : Except String (Json × String) :=
   | "C09" => D09.handle op c i
   | "C10" => D10.handle op c i
   | "C11" => D11.handle op c i
+  | "C12" => D12.handle op c i
   | "C16" => D16.handle op c i
   | "C17" => D17.handle op c i
   | _ => throw s!"unknown property {p}"
